@@ -3,6 +3,7 @@ module pegsim
 go 1.26
 
 require (
+	github.com/AdamSLevy/jsonrpc2/v13 v13.0.1
 	github.com/Factom-Asset-Tokens/factom v0.0.0-20191114224337-71de98ff5b3e
 	github.com/mattn/go-sqlite3 v1.11.0
 	github.com/pegnet/pegnet v0.5.1-0.20210225213341-a476b4b2cc0f
@@ -14,7 +15,6 @@ require (
 
 require (
 	github.com/AdamSLevy/go-merkle v0.0.0-20190611101253-ca33344a884d // indirect
-	github.com/AdamSLevy/jsonrpc2/v13 v13.0.1 // indirect
 	github.com/Factom-Asset-Tokens/base58 v0.0.0-20181227014902-61655c4dd885 // indirect
 	github.com/FactomProject/basen v0.0.0-20150613233007-fe3947df716e // indirect
 	github.com/FactomProject/btcutil v0.0.0-20160826074221-43986820ccd5 // indirect
@@ -33,6 +33,7 @@ require (
 	github.com/mitchellh/mapstructure v1.1.2 // indirect
 	github.com/pegnet/LXRHash v0.0.0-20191028162532-138fe8d191a2 // indirect
 	github.com/pelletier/go-toml v1.2.0 // indirect
+	github.com/rs/cors v1.7.0 // indirect
 	github.com/spf13/afero v1.1.2 // indirect
 	github.com/spf13/cast v1.3.0 // indirect
 	github.com/spf13/jwalterweatherman v1.0.0 // indirect
